@@ -30,6 +30,11 @@ EXTENDS Universe
 \* instantiating module may substitute state-level expressions for them)
 VARIABLES u, p
 
+\* TRUE: a get_candidates request whose future is dropped (cancellation) removes its
+\* in-flight marker (the code as repaired, cache.rs InFlightGuard); FALSE: the marker
+\* stays behind (the code as shipped at the pinned commit)
+CONSTANT CleanupOnDrop
+
 Hinted(n) == IF ~u.pkg[n].exists THEN {}
              ELSE IF u.pkg[n].hint.mode = "all" THEN Range(u.pkg[n].cands)
              ELSE IF u.pkg[n].hint.mode = "some" THEN Range(u.pkg[n].hint.list) ELSE {}
@@ -48,7 +53,15 @@ AddReq(st, key, kind, a, inv, owner, oi) ==
   [st EXCEPT !.reqs = st.reqs \cup {[key |-> key, kind |-> kind, a |-> a, inv |-> inv, owner |-> owner, oi |-> oi]},
              !.issued = IF key \in st.issued THEN st.issued ELSE st.issued \cup {key},
              !.twice = IF key \in st.issued THEN st.twice \cup {key} ELSE st.twice]
-Ensure(st, key, kind, a) == IF HasReq(st, key) THEN st ELSE AddReq(st, key, kind, a, 0, 0, 0)
+\* get_candidates / get_dependencies requests: the solver polls for cancellation
+\* right before it would start one; candidates requests are shared through the
+\* in-flight table (a task finding a marker listens instead of asking again)
+Ensure(st, key, kind, a) ==
+  IF HasReq(st, key) THEN st
+  ELSE IF kind = "cands" /\ a \in st.inflight THEN st            \* listen on a marker (possibly stale)
+  ELSE IF st.cancel THEN [st EXCEPT !.aborted = TRUE]
+  ELSE LET s1 == AddReq(st, key, kind, a, 0, 0, 0) IN
+       IF kind = "cands" THEN [s1 EXCEPT !.inflight = s1.inflight \cup {a}] ELSE s1
 \* a task is identified by what it is for: <<kind, solvable, requirement, version set / name>>
 Tid(k, x, r, v) == <<k, x, r, v>>
 NewTask(st, k, x, r, v, sub) ==
@@ -113,15 +126,21 @@ Adv(st, t) ==
      IF t.sub[1] = "D" THEN [st EXCEPT !.tasks = st.tasks \ {t}, !.done = st.done \cup {<<t.x, <<t.v>>, "con">>}]
      ELSE AdvSub(st, t, 1, t.v, 1)
 
+\* an observed cancellation makes encode return at once: every task and every
+\* outstanding provider future is dropped
+Dropped(st) == [st EXCEPT !.tasks = {}, !.reqs = {}, !.aborted = FALSE, !.wasCancelled = TRUE,
+                          !.inflight = IF CleanupOnDrop THEN {} ELSE st.inflight]
 RECURSIVE RTQ(_)
-RTQ(st) == IF \E t \in st.tasks : Adv(st, t) # st
+RTQ(st) == IF st.aborted THEN Dropped(st)
+           ELSE IF \E t \in st.tasks : Adv(st, t) # st
            THEN RTQ(Adv(st, CHOOSE t \in st.tasks : Adv(st, t) # st))
            ELSE st
 
 \* the provider answers request r
 Complete(st, r) ==
   LET s1 == [st EXCEPT !.reqs = st.reqs \ {r}] IN
-  IF r.kind = "cands" THEN [s1 EXCEPT !.cC = st.cC \cup {r.a}, !.H = st.H \cup Hinted(r.a)]
+  IF r.kind = "cands" THEN [s1 EXCEPT !.cC = st.cC \cup {r.a}, !.H = st.H \cup Hinted(r.a),
+                                      !.inflight = st.inflight \ {r.a}]
   ELSE IF r.kind = "deps" THEN [s1 EXCEPT !.cD = st.cD \cup {r.a}]
   ELSE LET t == CHOOSE t \in st.tasks : t.tid = r.owner IN
        IF r.kind = "filter"
@@ -130,7 +149,15 @@ Complete(st, r) ==
 
 S0 == [cC |-> {}, cD |-> {}, cM |-> {}, cS |-> {}, H |-> {}, addS |-> {0}, addP |-> {}, reqs |-> {},
        issued |-> {}, twice |-> {}, received |-> {}, done |-> {},
+       inflight |-> {}, cancel |-> FALSE, aborted |-> FALSE, wasCancelled |-> FALSE, solves |-> 1,
        tasks |-> {[tid |-> Tid("deps", 0, <<>>, 0), k |-> "deps", x |-> 0, r |-> <<>>, v |-> 0, sub |-> <<"W">>]}]
+
+\* the next solve on the same solver: the solver state is reset, the cache (and
+\* whatever in-flight markers were left behind) is kept, cancellation is withdrawn
+NextSolveState(st) ==
+  [st EXCEPT !.addS = {0}, !.addP = {}, !.received = {}, !.done = {}, !.issued = {}, !.twice = {},
+             !.cancel = FALSE, !.wasCancelled = FALSE, !.solves = st.solves + 1,
+             !.tasks = {[tid |-> Tid("deps", 0, <<>>, 0), k |-> "deps", x |-> 0, r |-> <<>>, v |-> 0, sub |-> <<"W">>]}]
 
 (***************************************************************************)
 (* Properties, for every completion order                                  *)
@@ -151,15 +178,17 @@ Causal(s) == \A key \in s.issued :
 \* what an encode adds does not depend on the completion order: the set of
 \* encoded solvables is the closure over "hinted candidate of a requirement of an
 \* encoded solvable", every requirement / constraint of each of them is delivered
+\* (dependencies fetched by an earlier solve count like hints; set by the caller)
+AlreadyFetched == {}
 RECURSIVE EagerClosure(_)
 EagerClosure(X) ==
   LET names == UNION {Mentioned(u, p, x) : x \in X}
       hinted == UNION {Hinted(n) : n \in names}
-      X2 == X \cup {c \in hinted : \E x \in X : \E j \in DOMAIN ReqsOf(u, p, x) : \E k \in DOMAIN ReqsOf(u, p, x)[j] :
+      X2 == X \cup {c \in hinted \cup AlreadyFetched : \E x \in X : \E j \in DOMAIN ReqsOf(u, p, x) : \E k \in DOMAIN ReqsOf(u, p, x)[j] :
                                      c \in MatchSet(u, ReqsOf(u, p, x)[j][k])}
   IN IF X2 = X THEN X ELSE EagerClosure(X2)
 ResultIndependent(s) ==
-  Finished(s) => /\ s.addS = EagerClosure({0})
+  (Finished(s) /\ ~s.wasCancelled) => /\ s.addS = EagerClosure({0})
               /\ s.addP = UNION {Mentioned(u, p, x) : x \in s.addS}
               /\ \A x \in s.addS : \A j \in DOMAIN ReqsOf(u, p, x) : <<x, ReqsOf(u, p, x)[j]>> \in s.done
 =============================================================================
